@@ -186,9 +186,12 @@ func applyDesc(in *inst.Instance, rc *ref.Common, d descChange) {
 	case "swapgates":
 		in.Common.GateIds[d.I], in.Common.GateIds[d.I+1] = in.Common.GateIds[d.I+1], in.Common.GateIds[d.I]
 		rc.GateIDs[d.I], rc.GateIDs[d.I+1] = rc.GateIDs[d.I+1], rc.GateIDs[d.I]
-	case "selidx", "groupstart", "groupend":
+	case "selidx", "groupstart", "groupend", "swapgroups":
 		delta, _ := strconv.Atoi(d.Arg)
 		switch d.What {
+		case "swapgroups":
+			// two whole groups exchanged in the list (selector indices keep pointing at positions)
+			rc.Groups[d.I], rc.Groups[d.I+1] = rc.Groups[d.I+1], rc.Groups[d.I]
 		case "selidx":
 			rc.SelectorIndices[d.I] += delta
 		case "groupstart":
@@ -215,6 +218,9 @@ func c01DescChanges(ctx *fw.Ctx, name string) []descChange {
 	// the two copies of the FRI configuration, each changed alone (the reference decides which
 	// changes the proof depends on: plonky2 reads fri_params.config for the grinding requirement
 	// and the proof shape, config.fri_config for the number of query indices)
+	for i := 0; i+1 < len(refCommon(in).Groups); i++ {
+		out = append(out, descChange{"swapgroups", i, "0"})
+	}
 	nq := int(in.Common.FriParams.Config.NumQueryRounds)
 	for _, cp := range []string{"params", "config"} {
 		for _, b := range []int{32, 48} {
@@ -359,7 +365,7 @@ func init() {
 					// description changes
 					ds := c01DescChanges(ctx, name)
 					for i, d := range ds {
-						structural := d.What == "selidx" || d.What == "groupstart" || d.What == "groupend" || d.What == "swapgates" || d.What == "fricfg"
+						structural := d.What == "selidx" || d.What == "groupstart" || d.What == "groupend" || d.What == "swapgates" || d.What == "fricfg" || d.What == "swapgroups"
 						if ctx.Quick && !(i%9 == 0 || d.What != "kis" && i%4 == 0 || structural && name == "A_testdata") {
 							continue
 						}
